@@ -239,6 +239,41 @@ func Materialise(dir string, initial map[string][]byte, ops []Op, n int, torn in
 	return out, nil
 }
 
+// UnsyncedFiles lists the files that hold data not yet covered by a Sync after
+// the first n mutating operations.
+func UnsyncedFiles(initial map[string][]byte, ops []Op, n int) []string {
+	st := replay(initial, ops, n, 0)
+	var out []string
+	for p, f := range st.byPath {
+		if string(f.data) != string(f.synced) {
+			out = append(out, p)
+		}
+	}
+	sort.Strings(out)
+	return out
+}
+
+// MaterialiseDropping is Materialise where exactly the files in drop lose their
+// un-synced data (every subset of the un-synced files is a possible crash state).
+func MaterialiseDropping(dir string, initial map[string][]byte, ops []Op, n int, drop map[string]bool) (map[string][]byte, error) {
+	st := replay(initial, ops, n, 0)
+	out := map[string][]byte{}
+	if err := os.MkdirAll(dir, 0o755); err != nil {
+		return nil, err
+	}
+	for p, f := range st.byPath {
+		d := f.data
+		if drop[p] {
+			d = f.synced
+		}
+		out[p] = d
+		if err := os.WriteFile(filepath.Join(dir, p), d, 0o644); err != nil {
+			return nil, err
+		}
+	}
+	return out, nil
+}
+
 // WriteLen returns the length of the n-th (0-based) mutating operation if it is
 // a write, else 0 (for choosing torn-write cut points).
 func WriteLen(ops []Op, n int) int {
